@@ -52,7 +52,8 @@ func (h *StubHH) WriteShard(shardID, ownerID uint64, points interface{}) error {
 func (h *StubHH) RemoveNode(ownerID uint64) error                              { return nil }
 
 type Options struct {
-	Index string // "inmem" (default) or "tsi1"
+	Index      string        // "inmem" (default) or "tsi1"
+	RPCTimeout time.Duration // the MetaExecutor's response timeout (default 10 s)
 }
 
 // Listen reserves the node's cluster address first, so that metadata can name it.
@@ -90,7 +91,11 @@ func New(dir string, ln net.Listener, opt Options) (*Node, error) {
 
 	n.ShardWriter = coordinator.NewShardWriter(5*time.Second, 2*time.Second, time.Minute, 10)
 	n.ShardWriter.MetaClient = n.Meta
-	n.MetaExecutor = coordinator.NewMetaExecutor(10*time.Second, 2*time.Second, time.Minute, 10)
+	rpcTimeout := 10 * time.Second
+	if opt.RPCTimeout > 0 {
+		rpcTimeout = opt.RPCTimeout
+	}
+	n.MetaExecutor = coordinator.NewMetaExecutor(rpcTimeout, 2*time.Second, time.Minute, 10)
 	n.MetaExecutor.MetaClient = n.Meta
 
 	n.Executor = query.NewExecutor()
